@@ -17,7 +17,7 @@ CLAIMED = {
         "note": "Exact optimality inside the 32-bit envelope of the model (<= 8 variables, weights 1..3, scales 1..2); beyond it (to 60 variables, "
                 "weights 1e-2..1e10) termination, feasibility, cost consistency and optimality by certificate (a cheaper exactly-feasible point "
                 "proposed by the harness and verified by TLC in BigNat = violation). The solver's internal steps are wrapped at run time and "
-                "validated against the model's actions (VpscSteps.tla; drift only). Trusted: TLC, the float -> integer projection.",
+                "validated against the model's actions (VpscSteps.tla; drift only). Cost consistency is also decided at full float precision (displacements in 1e-12, BigNat). Reachability witnesses guard against vacuity (every action of the model must be taken). Known finding F-05m: 1e10 weights at desired positions of 1e8 and beyond (pinned instances). Trusted: TLC, the float -> integer projection.",
         "technique": "TLA+ operational model + TLC exhaustive/simulation; trace validation of real solver runs against the model's certified optimum",
         "design_ref": "DESIGN.md section 8 (C05)",
     },
@@ -27,7 +27,7 @@ CLAIMED.update({
     "C01": {
         "text": "TLC checks on the layer model (spec/Chain.tla, MCChain.tla) that every admissible integer rounding of the exact optimum keeps "
                 "neighbours separated to within the stated 1 unit and in target order (so the slack is derived), and validates every "
-                "Force.compute() record from the real code (bounded lattice exhaustively strided, random, 150-label clusters, bounds, floats) "
+                "Force.compute() record from the real code (bounded lattice exhaustively strided, random, 200-label clusters, bounds, floats, two-decimal values, far-away coordinates 1e7..1e13, several independent layouts in one process with decoy engines, re-laid-out and re-measured labels, direct removeOverlap calls) "
                 "against the separation/order predicates, all pairs.",
         "note": "Widths and positions enter TLC as integers (1/4 units on the lattice, 1/1000 with widths rounded down for floats). The literal "
                 "all-pairs reading has a known finding (F-01, nodeSpacing < 1); every other pair is still checked.",
@@ -39,7 +39,7 @@ CLAIMED.update({
                 "the bounded chain lattice that it carries a KKT certificate and equals the fix-point of the operational solver model Vpsc.tla, and "
                 "then evaluates |position - optimum| <= 0.5 on every fitting layer of every lattice-valued layout observed from the real code, "
                 "re-certifying the optimum by KKT per record.",
-        "note": "Only lattice-valued inputs (multiples of 1/4) are compared with the optimum; ties of different width use the solver's chain order "
+        "note": "Lattice-valued inputs (multiples of 1/4, or two-decimal values exact in 1/200) are compared with the optimum; ties of different width use the solver's chain order "
                 "from Force.getLayers(). Reported alongside (drift only): the end-to-end model Layout.tla (Distributor -> optimum -> rounding, list order, half-even, wall give) predicts every fresh lattice layout item by item."+
                 "",
         "technique": "TLA+ functional optimum + KKT certificate checked by TLC; refinement check against the solver model; trace validation",
